@@ -132,6 +132,10 @@ template<typename Alloc>
 bool splinetable<Alloc>::read_fits_mem(void* buffer, size_t buffer_size){
 	if(ndim!=0)
 		throw std::runtime_error("splinetable already contains data, cannot read from (memory) file");
+	//cfitsio's memory driver reads whole 2880 byte records and will run past
+	//the end of a buffer which stops in the middle of one
+	if(!buffer || buffer_size==0 || buffer_size%2880!=0)
+		throw std::runtime_error("memory 'file' is not a whole number of FITS blocks");
 	
 	fitsfile* fits;
 	int error = 0;
@@ -151,6 +155,22 @@ bool splinetable<Alloc>::read_fits_mem(void* buffer, size_t buffer_size){
 			fits_report_error(stderr, error);
 		}
 	} cleanup(fits);
+	//cfitsio's memory driver does not stop at the end of the buffer when it is
+	//asked for image data which a header promises but the buffer does not
+	//contain, so make sure that every HDU lies inside the buffer
+	{
+		int nhdus=0, type;
+		fits_get_num_hdus(fits, &nhdus, &error);
+		for(int i=1; i<=nhdus && error==0; i++){
+			LONGLONG headstart, datastart, dataend;
+			fits_movabs_hdu(fits, i, &type, &error);
+			fits_get_hduaddrll(fits, &headstart, &datastart, &dataend, &error);
+			if(error==0 && (dataend<0 || uint64_t(dataend)>buffer_size))
+				throw std::runtime_error("memory 'file' is truncated");
+		}
+		if(error!=0)
+			throw std::runtime_error("Unable to examine the HDUs of memory 'file': Error "+std::to_string(error));
+	}
 	return(read_fits_core(fits, "memory 'file'"));
 }
 	
